@@ -541,9 +541,10 @@ Proof.
   apply in_map_iff in Hb. destruct Hb as [x [<- _]]. rewrite fact_trivial in NT. discriminate.
 Qed.
 
-Lemma NoDup_layout : forall P D, wf_src P -> NoDup (layout P D).
+Lemma NoDup_layout3 : forall P D, NoDup (flat_map fst (blocks P)) -> NoDup (map snd (wp_groups P)) ->
+    (forall g, In g (wp_groups P) -> ~ In (snd g) (flat_map fst (blocks P))) -> NoDup (layout P D).
 Proof.
-  intros P D [W1 W2 W3 W4]. unfold layout. apply NoDup_layout_gen; auto.
+  intros P D W1 W2 W3. unfold layout. apply NoDup_layout_gen; auto.
   - intros b Hb NT. apply W3. eapply nontrivial_group; eauto.
   - unfold blocks. rewrite filter_app, map_app.
     assert (E : filter (nontrivial D) (map (fun x : N => ([x], 0%N)) (wp_facts P)) = []).
@@ -551,9 +552,10 @@ Proof.
     rewrite E. simpl. rewrite app_nil_r. apply NoDup_map_filter; auto.
 Qed.
 
-Theorem Inv_dag_ok : forall P t, wf_src P -> Inv P t -> dag_ok P (t_nodes t).
+Theorem Inv_dag_ok3 : forall P t, NoDup (flat_map fst (blocks P)) -> NoDup (map snd (wp_groups P)) ->
+    (forall g, In g (wp_groups P) -> ~ In (snd g) (flat_map fst (blocks P))) -> Inv P t -> dag_ok P (t_nodes t).
 Proof.
-  intros P t WF [NZ ND SRC GRP]. assert (NL := NoDup_layout P (t_nodes t) WF).
+  intros P t W1 W2 W3 [NZ ND SRC GRP]. assert (NL := NoDup_layout3 P (t_nodes t) W1 W2 W3).
   assert (I1 : forall id, In id (atoms_of (t_nodes t)) -> In id (layout P (t_nodes t))).
   { intros id Hid. unfold layout. apply in_flat_map. destruct (SRC id Hid) as [HM|[g [Hg E]]].
     - apply in_flat_map in HM. destruct HM as [b [Hb Hi]]. exists b. split; auto.
@@ -572,6 +574,9 @@ Proof.
   constructor; auto.
   apply NoDup_Permutation; auto. intros x. split; auto.
 Qed.
+
+Theorem Inv_dag_ok : forall P t, wf_src P -> Inv P t -> dag_ok P (t_nodes t).
+Proof. intros P t [W1 W2 W3 W4]. apply Inv_dag_ok3; auto. Qed.
 
 Theorem break_cycles_shape : forall tc use_memo P labeled evidence D ks1 ks2,
     wf_src P -> break_cycles_m tc use_memo (wp_graph P) (ai_of P) labeled evidence = Some (D, ks1, ks2) ->
